@@ -415,6 +415,13 @@ pub broadcast proof fn axiom_str_get_range<'a>(s: &'a str, i: core::ops::Range<u
 ::vstd::prelude::verus! {
 pub assume_specification [str::to_lowercase](s: &str) -> (r: String) ensures r@ == lower_spec(s@);
 pub assume_specification [str::to_uppercase](s: &str) -> (r: String) ensures r@ == upper_spec(s@);
+// the ASCII-only case mappings are different functions from the Unicode ones (they differ on non-ASCII letters)
+pub uninterp spec fn ascii_upper_spec(s: Seq<char>) -> Seq<char>;
+pub uninterp spec fn ascii_lower_spec(s: Seq<char>) -> Seq<char>;
+pub assume_specification [str::to_ascii_uppercase](s: &str) -> (r: String) ensures r@ == ascii_upper_spec(s@);
+pub assume_specification [str::to_ascii_lowercase](s: &str) -> (r: String) ensures r@ == ascii_lower_spec(s@);
+pub assume_specification [str::make_ascii_uppercase](s: &mut str) ensures final(s)@ == ascii_upper_spec(old(s)@);
+pub assume_specification [str::make_ascii_lowercase](s: &mut str) ensures final(s)@ == ascii_lower_spec(old(s)@);
 pub assume_specification<'a> [str::trim](s: &'a str) -> (r: &'a str) ensures r@ == trim_spec(s@);
 pub assume_specification [Value::str_from](v: &Value) -> (r: String) ensures r@ == str_from_spec(*v);
 } // verus!
@@ -462,4 +469,38 @@ pub fn fmt_write(f: &mut core::fmt::Formatter<'_>) -> (r: Result<(), core::fmt::
 pub fn fmt_format() -> (r: String) { String::new() }
 #[verifier::external_body]
 pub fn fmt_nested<T>(x: &T, f: &mut core::fmt::Formatter<'_>) -> (r: Result<(), core::fmt::Error>) { Ok(()) }
+// ---- X23: `a |= b;` / `a &= b;` are rewritten to `a = vs_or(a, b);` / `a = vs_and(a, b);` because Verus rejects the
+// ---- non-short-circuit `|` / `&` on bool.  Verified (not assumed) helpers; both operands are evaluated, as in the original.
+pub trait VsOrAnd: Sized {
+    spec fn s_or(self, o: Self) -> Self;
+    spec fn s_and(self, o: Self) -> Self;
+    fn vs_or_m(self, o: Self) -> (r: Self) ensures r == self.s_or(o);
+    fn vs_and_m(self, o: Self) -> (r: Self) ensures r == self.s_and(o);
+}
+impl VsOrAnd for bool {
+    open spec fn s_or(self, o: bool) -> bool { self || o }
+    open spec fn s_and(self, o: bool) -> bool { self && o }
+    fn vs_or_m(self, o: bool) -> (r: bool) { if self { true } else { o } }
+    fn vs_and_m(self, o: bool) -> (r: bool) { if self { o } else { false } }
+}
+impl VsOrAnd for i64 {
+    open spec fn s_or(self, o: i64) -> i64 { self | o }
+    open spec fn s_and(self, o: i64) -> i64 { self & o }
+    fn vs_or_m(self, o: i64) -> (r: i64) { self | o }
+    fn vs_and_m(self, o: i64) -> (r: i64) { self & o }
+}
+impl VsOrAnd for usize {
+    open spec fn s_or(self, o: usize) -> usize { self | o }
+    open spec fn s_and(self, o: usize) -> usize { self & o }
+    fn vs_or_m(self, o: usize) -> (r: usize) { self | o }
+    fn vs_and_m(self, o: usize) -> (r: usize) { self & o }
+}
+impl VsOrAnd for u8 {
+    open spec fn s_or(self, o: u8) -> u8 { self | o }
+    open spec fn s_and(self, o: u8) -> u8 { self & o }
+    fn vs_or_m(self, o: u8) -> (r: u8) { self | o }
+    fn vs_and_m(self, o: u8) -> (r: u8) { self & o }
+}
+pub fn vs_or<T: VsOrAnd>(a: T, b: T) -> (r: T) ensures r == a.s_or(b) { a.vs_or_m(b) }
+pub fn vs_and<T: VsOrAnd>(a: T, b: T) -> (r: T) ensures r == a.s_and(b) { a.vs_and_m(b) }
 } // verus!
